@@ -407,7 +407,7 @@ func matchesSpec(a *types.Assertion, s *AssertionSpec) bool {
 // ---------- attacker edits ----------
 
 type caseInfo struct {
-	desc        []string
+	desc         []string
 	expectAccept bool // genuine, valid, and every needed signature verifies
 	expectReject bool // a signature that is present must fail, or an untrusted-only document
 	known        string
